@@ -165,8 +165,10 @@ pub trait AdjSut: Sized + Clone + 'static {
     fn clear_edges(&mut self);
     fn map_replace(&mut self, next_w: &mut u32, nlog: &mut VisitLog, elog: &mut VisitLog);
     fn filter_map_replace(&mut self, seed: u64, keep_n: u32, keep_e: u32, next_w: &mut u32, nlog: &mut VisitLog, elog: &mut VisitLog);
-    fn extend_with_edges(&mut self, edges: &[(usize, usize, u32)]);
-    fn from_edges_replace(&mut self, edges: &[(usize, usize, u32)]);
+    /// `form` picks the `IntoWeightedEdge` implementation: 0 `(a, b, w)`, 1 `(a, b, &w)`,
+    /// 2 `&(a, b, w)`, 3 `(a, b)` and 4 `&(a, b)` (the last two create Default weights)
+    fn extend_with_edges(&mut self, edges: &[(usize, usize, u32)], form: u8);
+    fn from_edges_replace(&mut self, edges: &[(usize, usize, u32)], form: u8);
     fn clone_replace(&mut self, clone_from: bool);
     /// `dest.clone_from(self)` where dest is `prev` (or a small unrelated graph); self becomes
     /// dest and the old self is returned
@@ -419,11 +421,35 @@ macro_rules! common_methods {
             );
             *self = g2;
         }
-        fn extend_with_edges(&mut self, edges: &[(usize, usize, u32)]) {
-            self.extend_with_edges(edges.iter().map(|&(a, b, w)| (ni::<Ix>(a), ni::<Ix>(b), w)));
+        fn extend_with_edges(&mut self, edges: &[(usize, usize, u32)], form: u8) {
+            match form {
+                1 => self.extend_with_edges(edges.iter().map(|(a, b, w)| (ni::<Ix>(*a), ni::<Ix>(*b), w))),
+                2 => {
+                    let v: Vec<(NodeIndex<Ix>, NodeIndex<Ix>, u32)> = edges.iter().map(|&(a, b, w)| (ni::<Ix>(a), ni::<Ix>(b), w)).collect();
+                    self.extend_with_edges(v.iter())
+                }
+                3 => self.extend_with_edges(edges.iter().map(|&(a, b, _)| (ni::<Ix>(a), ni::<Ix>(b)))),
+                4 => {
+                    let v: Vec<(NodeIndex<Ix>, NodeIndex<Ix>)> = edges.iter().map(|&(a, b, _)| (ni::<Ix>(a), ni::<Ix>(b))).collect();
+                    self.extend_with_edges(v.iter())
+                }
+                _ => self.extend_with_edges(edges.iter().map(|&(a, b, w)| (ni::<Ix>(a), ni::<Ix>(b), w))),
+            }
         }
-        fn from_edges_replace(&mut self, edges: &[(usize, usize, u32)]) {
-            *self = Self::from_edges(edges.iter().map(|&(a, b, w)| (ni::<Ix>(a), ni::<Ix>(b), w)));
+        fn from_edges_replace(&mut self, edges: &[(usize, usize, u32)], form: u8) {
+            *self = match form {
+                1 => Self::from_edges(edges.iter().map(|(a, b, w)| (ni::<Ix>(*a), ni::<Ix>(*b), w))),
+                2 => {
+                    let v: Vec<(NodeIndex<Ix>, NodeIndex<Ix>, u32)> = edges.iter().map(|&(a, b, w)| (ni::<Ix>(a), ni::<Ix>(b), w)).collect();
+                    Self::from_edges(v.iter())
+                }
+                3 => Self::from_edges(edges.iter().map(|&(a, b, _)| (ni::<Ix>(a), ni::<Ix>(b)))),
+                4 => {
+                    let v: Vec<(NodeIndex<Ix>, NodeIndex<Ix>)> = edges.iter().map(|&(a, b, _)| (ni::<Ix>(a), ni::<Ix>(b))).collect();
+                    Self::from_edges(v.iter())
+                }
+                _ => Self::from_edges(edges.iter().map(|&(a, b, w)| (ni::<Ix>(a), ni::<Ix>(b), w))),
+            };
         }
         fn clone_from_stash(&mut self, prev: Option<Self>) -> Self {
             let mut dest = prev.unwrap_or_else(|| {
